@@ -514,7 +514,7 @@ package sstables
 //@      mget(s.offsetCache, o).ValueOffset == dxVal(s.reader, dxAt(s.reader, o)) && mget(s.offsetCache, o).Checksum == dxSum(s.reader, dxAt(s.reader, o))
 
 //@ func (*DiskKeyIndex).findAt
-//@   props C03
+//@   props C03 C09
 //@   bounded conformance_trusted executable conformance of the trusted library contracts (contracts-ext/stdlib.gvc): hash Write/Sum, bloom filter add/contains, buffer pool Get, mmap ReadAt/Len, io.ReadFull, os.ReadDir order / Rename, filepath Base/Join, ParseUint, compressor round trips, protobuf decode touches only its message; sampled inputs, results only (not the modifies clauses)
 //@   replay table_model
 //@   requires dxCacheOK(s) && s.reader != nil
@@ -527,7 +527,7 @@ package sstables
 //@   modifies s.offsetCache[*]
 
 //@ func (*DiskKeyIndex).binarySearch
-//@   props C03
+//@   props C03 C09
 //@   replay table_model
 //@   requires dxSorted(s.reader) && dxCacheOK(s) && s.reader != nil
 //@   ensures [cache-stays-valid] dxCacheOK(s)
@@ -556,7 +556,7 @@ package sstables
 //@   modifies s.offsetCache[*]
 
 //@ func (*DiskKeyIndex).Get
-//@   props C03
+//@   props C03 C09
 //@   replay table_model
 //@   requires dxSorted(s.reader) && dxCacheOK(s) && s.reader != nil
 //@   ensures [cache-stays-valid] dxCacheOK(s)
